@@ -426,7 +426,12 @@ def schedule_rules(R, ts):
         if not name.endswith("now") and ins:
             R.check(argstr(f, ins[0].node, 2) == "task->priority_queue_node" and argstr(f, ins[0].node, 1) == "task", "SCHEDULE", "future:handle-registered", where(f, ins[0]), "pushed with its own handle")
             # fallback sorted insertion
+            # forward (from the first node, stop at the first strictly later task, insert before it) or backward (from the last
+            # node, stop at the first task not later, insert after it): the same position in a sorted list
             fb = [e for e in f.calls("aws_linked_list_insert_before")]
+            backward = not fb and bool(f.calls("aws_linked_list_insert_after"))
+            if backward:
+                fb = [e for e in f.calls("aws_linked_list_insert_after")]
             R.check(len(fb) == 1 and argstr(f, fb[0].node, 1) == "task->node", "SCHEDULE", "future:fallback-insert", where(f, fb[0]) if fb else name, "fallback inserts the task's node into the timed list")
             okb = False
             for b in f.blocks.values():
@@ -440,7 +445,9 @@ def schedule_rules(R, ts):
                         # the new task's time: the parameter, or the task's own timestamp field (which was set from it)
                         own = lambda n_: f.show(RU.uncast(f, n_)) in (tt, tp + "->timestamp")
                         other = lambda n_: "timestamp" in f.show(n_) and not own(n_)
-                        if (g[1] == ">" and own(g[2]) and other(g[0])) or (g[1] == "<" and own(g[0]) and other(g[2])):
+                        if not backward and ((g[1] == ">" and own(g[2]) and other(g[0])) or (g[1] == "<" and own(g[0]) and other(g[2]))):
+                            okb = True
+                        if backward and ((g[1] == "<=" and own(g[2]) and other(g[0])) or (g[1] == ">=" and own(g[0]) and other(g[2]))):
                             okb = True
             R.check(okb, "SCHEDULE", "future:fallback-stops-at-strictly-later", "%s()" % name, "sorted insertion stops at the first task strictly later (equal times stay FIFO)",
                     "the fallback sorted insertion does not stop at the first strictly later task")
@@ -465,11 +472,11 @@ def schedule_rules(R, ts):
                                 while r_ is not None and r_["k"] == "cast":
                                     r_ = RU.uncast(f, r_["a"][0])
                                 c_ = (r_ or {}).get("callee") if r_ is not None and r_["k"] == "call" else None
-                                if c_ in RU.LIST_FRONT and argstr(f, r_, 0) == "scheduler->timed_list":
+                                if c_ in (RU.LIST_BACK if backward else RU.LIST_FRONT) and argstr(f, r_, 0) == "scheduler->timed_list":
                                     continue
-                                if c_ == "aws_linked_list_next" and f.show(RU.uncast(f, RU.arg(f, r_, 0))) == pos["n"]:
+                                if c_ == ("aws_linked_list_prev" if backward else "aws_linked_list_next") and f.show(RU.uncast(f, RU.arg(f, r_, 0))) == pos["n"]:
                                     continue
-                                if c_ == "aws_linked_list_end" and argstr(f, r_, 0) == "scheduler->timed_list":
+                                if not backward and c_ == "aws_linked_list_end" and argstr(f, r_, 0) == "scheduler->timed_list":
                                     ev_ = type("E", (), {"blk": b.id, "idx": 0, "seq": 0})()
                                     by_last = False
                                     for cc, pp, bb in RU.guards(f, ev_, dom):
